@@ -503,6 +503,15 @@ def _big_int_power(b, k):
             fa = f(a)
             c.lemma(z3.Implies(z3.And(a >= 0, bt >= 0),
                                z3.And(z3.Implies(a <= bt, fa <= app), z3.Implies(bt <= a, app <= fa))))
+        # numeric anchor points (monotone on b >= 0): b >= t -> b^k >= t^k, b <= t -> b^k <= t^k, with the
+        # double value of t^k rounded outward.  True facts; they keep solver models of the uninterpreted
+        # monomial close to reality, which matters for the replay of counterexamples
+        for t in (Fraction(1, 2), Fraction(9, 10), Fraction(99, 100), Fraction(999, 1000)):
+            v = float(t) ** k
+            lo = Fraction(v) * Fraction(999999999, 1000000000)
+            hi = Fraction(v) * Fraction(1000000001, 1000000000) + Fraction(1, 10 ** 300)
+            c.lemma(z3.Implies(z3.And(bt >= rv(t)), app >= rv(lo)))
+            c.lemma(z3.Implies(z3.And(bt >= 0, bt <= rv(t)), app <= rv(hi)))
         apps.append(bt)
     return SNum(app)
 
